@@ -2,6 +2,8 @@ package main
 
 import (
 	"flag"
+
+	"github.com/resonatehq/resonate/internal/kernel/t_api"
 	"fmt"
 	"math/rand"
 	"os"
@@ -13,7 +15,7 @@ var baseWeights = map[string]int{
 	"ReadPromise": 3, "CreatePromise": 5, "CreatePromiseAndTask": 1, "CompletePromise": 5,
 	"CreateCallback": 2, "CreateSubscription": 2, "ClaimTask": 2, "CompleteTask": 1, "HeartbeatTasks": 1,
 	"AcquireLock": 1, "ReleaseLock": 1, "HeartbeatLocks": 1,
-	"CreateSchedule": 1, "ReadSchedule": 1, "DeleteSchedule": 1,
+	"CreateSchedule": 1, "ReadSchedule": 1, "DeleteSchedule": 1, "SearchPromises": 1, "SearchSchedules": 1,
 }
 
 func weights(focus string) map[string]int {
@@ -34,6 +36,10 @@ func weights(focus string) map[string]int {
 		w["ClaimTask"], w["CompleteTask"], w["HeartbeatTasks"] = 6, 4, 3
 	case "lock":
 		w["AcquireLock"], w["ReleaseLock"], w["HeartbeatLocks"] = 5, 3, 3
+	case "search":
+		w["CreatePromise"], w["CompletePromise"], w["ReadPromise"] = 6, 3, 1
+		w["SearchPromises"], w["SearchSchedules"] = 6, 2
+		w["CreateSchedule"], w["DeleteSchedule"] = 2, 1
 	case "schedule":
 		w["CreateSchedule"], w["ReadSchedule"], w["DeleteSchedule"] = 4, 2, 1
 		w["CreatePromise"], w["ReadPromise"] = 1, 1
@@ -114,11 +120,14 @@ func main() {
 		prof := profile{
 			Weights: weights(*focus), PFailPre: *faults / 2, PFailPost: *faults / 2, PCrash: *crash,
 			PRouteErr: *routeerr, PSendOk: 0.6, PSendErr: 0.15, PDelay: []float64{0, 0.3, 0.6}[r.Intn(3)], MaxBatch: one(1, 3),
-			Promises: one(2, 3), HostileIds: *hostile,
+			Promises: map[bool]int{true: one(4, 7), false: one(2, 3)}[*focus == "search"], HostileIds: *hostile,
 		}
 		d := &driver{r: r, p: prof, converge: *converge}
 		for j := 0; j < prof.Promises; j++ {
 			id := fmt.Sprintf("p%d", j+1)
+			if *focus == "search" {
+				id = []string{"a.x", "a.y", "b.x", "ab.x", "b", "a.b.x", "ba"}[j%7]
+			}
 			if *hostile && j > 0 {
 				id = strings.Repeat("a:", j) + "b"
 			}
@@ -127,7 +136,7 @@ func main() {
 		d.subs = []string{"s1", "s2"}
 		d.sched = []string{"sc1", "sc2"}
 		d.crons = []string{"* * * * * *", "*/2 * * * * *"}
-		w := &world{cfg: cfg, path: path, tr: tr, now: int64(10000 + r.Intn(3000)), reqKind: map[string]string{}}
+		w := &world{cfg: cfg, path: path, tr: tr, now: int64(10000 + r.Intn(3000)), reqKind: map[string]string{}, onReply: map[string]func(*t_api.Response){}, meta: map[string]M{}}
 		d.w = w
 		tr.last = ""
 		tr.emit(M{"e": "reset", "t": w.now, "run": i, "seed": *seed, "cfg": cfg, "focus": *focus, "profile": prof})
